@@ -50,7 +50,8 @@ def ctype(node_type):
         return ("ptr", q[:-1].strip())
     if q in TYPES:
         return ("int",) + TYPES[q]
-    if q.startswith("enum ") or q in ("ares_bool_t", "ares_status_t", "ares_conn_err_t", "ares_dns_rec_type_t"):
+    if q.startswith("enum ") or q in ("ares_bool_t", "ares_status_t", "ares_conn_err_t", "ares_dns_rec_type_t",
+                                      "ares_server_bucket_t"):
         return ("int", False, 32)
     if q in ("float", "double", "long double"):
         return ("float",)
@@ -100,7 +101,7 @@ class Translator:
     # ---------- pass 1: which pointer paths are written ----------
     def collect_written(self, n):
         k = n.get("kind")
-        if k in ("ForStmt", "WhileStmt", "DoStmt", "GotoStmt", "SwitchStmt", "LabelStmt"):
+        if k in ("ForStmt", "WhileStmt", "DoStmt", "GotoStmt", "LabelStmt"):
             raise Unsupported(k)
         for c in n.get("inner", []) or []:
             self.collect_written(c)
@@ -480,6 +481,18 @@ class Translator:
         if k == "CallExpr":
             return self.call(n, env)
         if k == "UnaryExprOrTypeTraitExpr":
+            # sizeof of a known integer type (or of an expression of such a type) is a constant
+            if n.get("name") == "sizeof":
+                at = n.get("argType")
+                if at is None and n.get("inner"):
+                    sub = n["inner"][0]
+                    while sub.get("kind") == "ParenExpr":
+                        sub = sub["inner"][0]
+                    at = sub.get("type")
+                if at is not None:
+                    t = ctype(at)
+                    if t[0] == "int":
+                        return ("z", str(t[2] // 8), False, 64)
             nm = self.add_input(self.node_name(n, "sizeof_"), "sizeof expression")
             return ("z", nm, False, 64)
         raise Unsupported("expression kind " + k)
@@ -688,11 +701,75 @@ class Translator:
             then_t = self.stmts([inner[1]] + rest, dict(env))
             else_t = self.stmts(([inner[2]] if len(inner) > 2 else []) + rest, dict(env))
             return self.wrap_items(items, ("if", c, then_t, else_t))
+        if k == "SwitchStmt":
+            return self.switch(s, rest, env)
+        if k in ("BreakStmt", "ContinueStmt", "CaseStmt", "DefaultStmt"):
+            raise Unsupported(k + " outside the supported switch form")
         # expression statement
         self.begin()
         self.expr(s, env)
         items = self.take()
         return self.wrap_items(items, self.stmts(rest, env))
+
+    def switch(self, s, rest, env):
+        """switch over integer constants whose body is a flat list of case/default labels,
+        statements and top-level `break`s (fall-through is honoured); translated to an
+        if-chain on the (let-bound) controlling value.  A `break` nested inside another
+        statement is refused."""
+        inner = [c for c in s.get("inner", []) if "kind" in c]
+        if len(inner) != 2 or inner[1]["kind"] != "CompoundStmt":
+            raise Unsupported("switch form")
+        self.begin()
+        cv = self.expr(inner[0], env)
+        nm = self.let(self.as_z(cv))
+        items = self.take()
+        seq = []          # ("label", const term | None) | ("stmt", node) | ("break",)
+
+        def has_break(n):
+            if n.get("kind") == "BreakStmt":
+                return True
+            if n.get("kind") in ("SwitchStmt",):
+                return False
+            return any(has_break(c) for c in n.get("inner", []) or [] if isinstance(c, dict))
+
+        def add(n):
+            k = n["kind"]
+            if k == "CaseStmt":
+                parts = [c for c in n["inner"] if "kind" in c]
+                if len(parts) != 2:
+                    raise Unsupported("case range")
+                self.begin()
+                c = self.expr(parts[0], env)
+                if self.take():
+                    raise Unsupported("non-constant case label")
+                seq.append(("label", self.as_z(c)))
+                add(parts[1])
+            elif k == "DefaultStmt":
+                seq.append(("label", None))
+                add([c for c in n["inner"] if "kind" in c][-1])
+            elif k == "BreakStmt":
+                seq.append(("break",))
+            else:
+                if has_break(n):
+                    raise Unsupported("break nested inside a statement of a switch")
+                seq.append(("stmt", n))
+        for c in inner[1].get("inner", []) or []:
+            add(c)
+
+        def code_from(i):
+            out = []
+            for it in seq[i:]:
+                if it[0] == "break":
+                    return out
+                if it[0] == "stmt":
+                    out.append(it[1])
+            return out
+        labels = [(i, it[1]) for i, it in enumerate(seq) if it[0] == "label"]
+        default = [i for (i, c) in labels if c is None]
+        tree = self.stmts((code_from(default[0]) if default else []) + rest, dict(env))
+        for (i, c) in reversed([x for x in labels if x[1] is not None]):
+            tree = ("if", "(%s =? %s)" % (nm, c), self.stmts(code_from(i) + rest, dict(env)), tree)
+        return self.wrap_items(items, tree)
 
     # ---------- printing ----------
     def out_tuple(self, v, env):
